@@ -89,6 +89,20 @@ CLAIMS["C16"] = (
     "'statements never see each other's values' is decided per command for execute/reset/long-data only.",
     "DESIGN.md section 4, C16")
 
+CLAIMS["C31"] = (
+    "The two-generation reload protocol as per-operation contracts over the abstract view (active generation index, staged generation, "
+    "prepared flag, ghost name of the last prepare): Prepare stages fresh copies in the inactive generation and never touches the active "
+    "one; Commit(name) switches generations exactly when a prepare is pending for that very name (another name is rejected and the "
+    "prepare stays pending; no pending prepare is an error) and clears the flag; Delete stages a copy, activates it and invalidates a "
+    "pending prepare; BoolIndex and AtomicBool are verified against their cell specifications. Any sequential history of these "
+    "operations therefore activates exactly the configuration last prepared for the committed name (induction over the history: "
+    "meta-argument over the contracts, not mechanised).",
+    "Assumed callee contracts (frames: they never write the manager's own fields): ShallowCopyNamespaceManager, CloneUserManager, "
+    "RebuildNamespace(+ 'the rebuilt namespace is present'), DeleteNamespace, RebuildNamespaceUsers, ClearNamespaceUsers, NewSQLResponse, "
+    "clearBackendConnectPoolMetrics, Namespace.Init; go statements (Close) assumed not to write manager fields; operations are assumed "
+    "atomic (they take no lock); 'sessions observe one generation' is concurrency and is not decided.",
+    "DESIGN.md section 4, C31")
+
 NA = {
 }
 
